@@ -478,9 +478,10 @@ Proof. vm_compute. repeat split; reflexivity. Qed.
      - StSFrame: every update message produced names, in its mappings, only entities that are in its changes array
        ([maps_in_changes]; C16's premise "registered no later than the tick in which the entity first becomes visible to
        that client" gives this: C03V_unknown_visible_is_sent_whole);
-     - StCFrame: when the (connected) client applies its inbox every mapping is harmless at that moment ([inbox_maps_ok],
-       [maps_ok]: the server entity is unknown to the client, not even as the placeholder of an entity reference; the
-       pre-spawned entity, if alive, is neither marked nor mapped), and the client operations of the frame are harmless
+     - StCFrame: when the (connected) client applies its inbox every mapping is harmless at the moment it is applied,
+       i.e. after the despawn records of its message ([inbox_maps_ok], [maps_ok] at [maps_pre]: the server entity is
+       unknown to the client, not even as the placeholder of an entity reference; the pre-spawned entity, if alive, is
+       neither marked nor mapped), and the client operations of the frame are harmless
        ([cops_safe]: the client does not despawn a pre-spawned entity a server entity is mapped to).
    It is decidable along the run: [run_maps_okb] (C03F_maps_checker).  Proofs: Repl/ClientHistMaps_proofs.v (the history
    argument and the client frame with mappings), Repl/StructE2EMaps_proofs.v. *)
@@ -489,7 +490,7 @@ Proof. vm_compute. repeat split; reflexivity. Qed.
 Theorem C03F_update_message_maps : forall c S u c' applied,
   cs_inv c -> srel c S -> hist_small c -> ent_hist_ok applied c ->
   (forall u0, In u0 applied -> u_tick u0 <= u_tick u) -> small_tick (u_tick u) ->
-  maps_ok (set_upd_tick c (u_tick u)) (u_maps u) -> maps_in_changes u ->
+  maps_ok (maps_pre c u) (u_maps u) -> maps_in_changes u ->
   apply_update_message c u = Ok c' ->
   cs_inv c' /\ srel c' (abs_apply S u) /\ hist_small c' /\ ent_hist_ok (applied ++ [u]) c'.
 Proof. exact update_message_maps_props. Qed.
